@@ -166,7 +166,11 @@ def specDispatch : RVariant → Disp
 
 /-! ### the error path: `Unimock::induce_panic`, `Continuation::report` -/
 
-inductive EStep | formatMsg | record | panicMsg | panicOther deriving Repr, DecidableEq
+inductive EStep
+  | formatMsg | record | panicMsg | panicOther
+  /-- no_std only: sets the `panicked` flag of the instance the call was made on (not of any other instance) -/
+  | setOwnFlag
+  deriving Repr, DecidableEq
 
 /-- runs the statement list of `induce_panic`: `some (recorded before the panic?, the panic carries the error's own text?)`,
     `none` if the list ends without panicking -/
@@ -176,6 +180,14 @@ def runE : List EStep → Bool → Bool → Option (Bool × Bool)
   | .record :: r, f, _ => runE r f true
   | .panicMsg :: _, f, rec => some (rec, f)
   | .panicOther :: _, _, rec => some (rec, false)
+  | .setOwnFlag :: r, f, rec => runE r f rec
+
+/-- does the statement list set the calling instance's own flag before it panics? -/
+def setsOwnFlag : List EStep → Bool
+  | [] => false
+  | .setOwnFlag :: _ => true
+  | .panicMsg :: _ | .panicOther :: _ => false
+  | _ :: r => setsOwnFlag r
 
 inductive RCont | answer | unmock | callDefault deriving Repr, DecidableEq
 inductive EKind | notAnswered | cannotUnmock | noDefaultImpl | other deriving Repr, DecidableEq
